@@ -31,3 +31,9 @@ Theorem monitor_C03_sound :
     ok_C03 sc (model_rec sc st a k) = true.
 Proof. intros sc st a k WF WS A. exact (model_passes_C03 sc st a k WF WS A). Qed.
 Print Assumptions monitor_C03_sound.
+
+Theorem monitor_C03_state_sound :
+  forall sc st a k, wf_scenario sc = true -> wf_state sc st = true -> act_ok sc a ->
+    ok_C03_state sc (model_rec sc st a k) = true.
+Proof. exact model_passes_C03_state. Qed.
+Print Assumptions monitor_C03_state_sound.
